@@ -540,7 +540,9 @@ func responseI(r *core.Rand, ops *[]string, id string, g *genCfg, fast bool, spa
 func (P) Gen(r *core.Rand, tier string, emit func([]string)) {
 	nMain, nCfg, nPar, nSlow := 70, 40, 6, 1
 	nInter, nFlight, nE2E := 50, 30, 24
+	nTimed := 3
 	if tier == "thorough" {
+		nTimed = 30
 		nMain, nCfg, nPar, nSlow = 1500, 600, 60, 4
 		nInter, nFlight, nE2E = 1000, 500, 400
 	}
@@ -753,11 +755,45 @@ func (P) Gen(r *core.Rand, tier string, emit func([]string)) {
 					live = append(live, id)
 				}
 			}
-			ops = append(ops, request(r, live[r.Intn(len(live))], cur, span))
+			k := r.Intn(len(live))
+			rq, closes := request(r, live[k], cur, span)
+			ops = append(ops, rq)
+			if closes { // the client asked for the connection to be closed after this response
+				live = append(live[:k], live[k+1:]...)
+				if len(live) == 0 {
+					id := fmt.Sprintf("d%d", k+len(ops))
+					ops = append(ops, "dial "+id+shared)
+					live = append(live, id)
+				}
+			}
 		}
 		if r.Chance(1, 2) {
 			ops = append(ops, "hangup "+live[r.Intn(len(live))])
 		}
+		ops = append(ops, "leak")
+		emit(ops)
+	}
+	// I. end to end, throttles with nothing ahead: open-ended ranges and range starts past the last action, bodies
+	// beyond the proxy's write buffer; the connection's own buckets drain every 10 ms, so "at least the configured
+	// delay" of a throttled body is a wall-clock lower bound of tenths of a second
+	for i := 0; i < nTimed; i++ {
+		bw := r.Range(300, 500)
+		k := []int{0, r.Intn(300), r.Range(1000, 2000)}[r.Intn(3)]
+		thr := fmt.Sprintf("%s/%d", core.HexS(fmt.Sprintf("%d-", k)), bw)
+		if k > 600 && r.Bool() {
+			thr = fmt.Sprintf("%s/%d,%s", core.HexS(fmt.Sprintf("0-%d", k-r.Range(1, 500))), r.Range(2000, 4000), thr)
+		}
+		halts := "-"
+		if r.Bool() {
+			halts = fmt.Sprintf("%d/%d/-1", r.Intn(k+50), r.Range(1, 5))
+		}
+		id := r.Pick("a", "b", "c")
+		ops := []string{fmt.Sprintf("config d:none s:%s:0:%s:%s:-", id, thr, halts), "dial c0 - 10"}
+		ops = append(ops, fmt.Sprintf("req c0 %s - %d", id, k+r.Range(8000, 12000)))
+		if r.Bool() {
+			ops = append(ops, fmt.Sprintf("req c0 n - %d", r.Range(4000, 9000))) // the unmatched URL is not slowed down... nor sped up
+		}
+		ops = append(ops, "dial c1 - 10", fmt.Sprintf("req c1 %s %d %d%s", id, k+r.Range(1, 3000), r.Range(8000, 12000), r.Pick("", "", " c", " h10")))
 		ops = append(ops, "leak")
 		emit(ops)
 	}
@@ -774,8 +810,8 @@ func contains(xs []string, x string) bool {
 	return false
 }
 
-// request emits one exchange of the end-to-end tier: URL class, Range form, body length.
-func request(r *core.Rand, id string, g *genCfg, span int) string {
+// request emits one exchange of the end-to-end tier: URL class, Range form, body length, connection options.
+func request(r *core.Rand, id string, g *genCfg, span int) (string, bool) {
 	u := r.Pick("a", "b", "c", "n", "n", "a")
 	if g != nil && len(g.shapes) > 0 && r.Chance(1, 2) {
 		u = g.shapes[r.Intn(len(g.shapes))].id
@@ -821,5 +857,10 @@ func request(r *core.Rand, id string, g *genCfg, span int) string {
 			blen = int(a)
 		}
 	}
-	return fmt.Sprintf("req %s %s %s %d", id, u, R, blen)
+	// connection options: Connection: close or an HTTP/1.0 request, the origin echoing the close or not
+	opt := ""
+	if r.Chance(1, 4) {
+		opt = " " + r.Pick("c", "c", "ce", "h10", "h10e")
+	}
+	return fmt.Sprintf("req %s %s %s %d%s", id, u, R, blen, opt), opt != ""
 }
